@@ -502,4 +502,5 @@ func runC08(c *Ctx) {
 			}
 		}
 	})
+	c.Require("detected_with_key:digest", "edits_parsed:alter-float-next", "reused_target_decodes", "cli_verify_runs", "reencodings:shuffle")
 }
